@@ -489,25 +489,31 @@ def main():
     props = [json.loads(l) for l in open(os.path.join(ROOT, "properties.jsonl"))]
     checks = []
     na = []
-    # what the third seeding round added to a check (DESIGN.md Appendix E)
+    # what the third and fourth seeding rounds added to a check (DESIGN.md Appendix E)
     ROUND3 = {
-        "C03": "In-place histories (one buffer overwritten between calls) for every rotation-vector routine; the quaternion tangent maps' derivatives for both normalize variants through QuatKernel.tla.",
+        "C29": "Literal suffixed file names next to repeated ones; a rod with explicit ncells; the binary session of every solution always thins.",
+        "C26": "Object family s2s0 (frictionless contact); a live mesh sibling on another partition is asked before every call.",
+        "C10": "Tiny strains (1e-5 .. 1e-8 from the reference) with relative comparisons.",
+        "C06": "A companion contact of the same class on the same body is kept alive and evaluated before every record; test bodies carry decoy attributes (radius).",
+        "C05": "Unit changes: the mechanism rebuilt with every length times 2^-30 and compared with the scaled original (JointKernel.tla Homogeneous).",
+        "C02": "Arguments typed as integers must give what the same numbers typed as floats give (typed_arguments).",
+        "C03": "In-place histories (one buffer overwritten between calls) for every rotation-vector routine; the quaternion tangent maps' derivatives for both normalize variants through QuatKernel.tla. Arguments typed as integers (typed_arguments).",
         "C07": "Laws on Revolute joints also on oblique bases and between two moving bodies (angle and energy rates by central differences); consecutive evaluations that differ in the velocity only.",
-        "C08": "Revolute cases also with translating / rotating frames as partners.",
+        "C08": "Revolute cases also with translating / rotating frames as partners. A sibling interaction and the same element at other times are evaluated before every record.",
         "C09": "History used_then_reset: the assembled system is evaluated away from its initial configuration, then System.reset().",
-        "C11": "History: element-wise post-processing with explicit element numbers before the nodal-interpolation check.",
+        "C11": "History: element-wise post-processing with explicit element numbers before the nodal-interpolation check. Assembled Jacobians (h_q, c_q; Simo1986 and Harsch2021) against central differences after an evaluation with the same quaternions.",
         "C12": "Second pass with long-lived argument arrays overwritten in place.",
         "C13": "The tables a Mesh1D precomputes (qp, wp, N, N_xi; Gauss and Lobatto) on non-uniform partitions, and live meshes of one degree asked alternately.",
-        "C14": "Every matrix method also with format coo / csr / csc / array.",
-        "C15": "Coo.tla models the nested container the caller still holds (kid, PokeKid, KidIndependent); every sequence of up to three nested / dense writes is replayed with the child kept alive; dense blocks arrive in eight memory layouts.",
-        "C16": "Re-initialisation also with every ball lifted off the plane.",
-        "C17": "Half of the random systems have products of inertia.",
+        "C14": "Every matrix method also with format coo / csr / csc / array. Stub quantities in other units (integers times 2^-60 / 2^40).",
+        "C15": "Coo.tla models the nested container the caller still holds (kid, PokeKid, KidIndependent); every sequence of up to three nested / dense writes is replayed with the child kept alive; dense blocks arrive in eight memory layouts. Block values in other units (powers of two).",
+        "C16": "Re-initialisation also with every ball lifted off the plane. Dedicated systems: contact orders, a slow contact fixed point with several iteration budgets, initial states typed as integers.",
+        "C17": "Half of the random systems have products of inertia. Solver option variants (ScipyIVP without precomputed initial conditions, DualStormerVerlet(accelerated=False)); feature coverage independent of the seed.",
         "C18": "Scene kind with balls of unequal principal inertias sliding obliquely.",
         "C19": "A top released from rest; every second system run to a final time that is no multiple of the step.",
         "C20": "TimeGrid.tla LongRuns (1000 .. 20000 steps, final time just before / on / after a grid point); a save / load session.",
         "C21": "Failures without injection (static problem without equilibrium with pseudo-inverse linear solvers; fast-spinning body under DualStormerVerlet) watched by independent observers of fsolve and the fixed-point helpers (site 'unmet' in SolverRun.tla).",
         "C22": "The momentum helper is also started far away from the fixed point.",
-        "C24": "Systems shaken_support (joint partner with prescribed motion) and spinning_bar_coarse_output.",
+        "C24": "Systems shaken_support (joint partner with prescribed motion) and spinning_bar_coarse_output. System torsional_oscillator_default_reference.",
         "C25": "Frames with time-dependent orientation as joint partners (rate of the tracked angle against l_dot).",
         "C27": "The prox parameter in other units (powers of two).",
     }
